@@ -595,6 +595,10 @@ def evaluate(prop, queries, results, known, tier, seed, t0, extra_cov=None, skip
                 if p['status'] != 'FAILURE':
                     canary_bad.append(q.qid)
                 continue
+            if what == 'bbk' and prop == 'C04' and re.search(r'ensures at exit|no exception|invariant|at most', p.get('desc') or ''):
+                # the exit clauses of the decay0_bb contract fix how many particles the primary process emits (2, 3 or 4), their
+                # species and that the emission calls are prompt and isotropic: the C04 facts about the double-beta primary process
+                pid = 'C04'
             if what in ('bbk', 'safek') and pid in ('C03', 'C08') and prop in ('C03', 'C08') and re.search(r'invariant|no exception', p.get('desc') or ''):
                 # the invariants of the decay0_bb contract carry both its safety (C08) and its energy (C03) clauses: a segment
                 # that fails to re-establish one is a failed obligation of whichever of the two properties is being decided
@@ -911,7 +915,7 @@ def prop_l3(prop, tier, seed):
             queries += evis_queries(db, contracts, consts)
     only_ = set(os.environ['VERIF_ONLY'].split(',')) if os.environ.get('VERIF_ONLY') else None
     if True:
-        if prop in ('C03', 'C08') and (only_ is None or 'decay0_bb' in only_):
+        if prop in ('C03', 'C08', 'C04') and (only_ is None or 'decay0_bb' in only_):
             qs, sk = bbk_queries(db, prop, tier)
             queries += qs
             skipped += sk
